@@ -1,13 +1,14 @@
 SPECIFICATION Spec
 CONSTANTS
-  Writers = {"w1"}
+  Writers = {"w1", "w2"}
   Heights = {1}
-  Shapes = {"full", "bare"}
-  MaxCrash = 1
-  Concurrent = FALSE
+  Shapes = {"full"}
+  MaxCrash = 0
+  Concurrent = TRUE
   Uploads = FALSE
   CheckAFixed = TRUE
+  SaveRmForeign = TRUE
   SameHeight = TRUE
 VIEW view
 CHECK_DEADLOCK FALSE
-INVARIANTS Recoverable
+INVARIANTS FirstSurvives
